@@ -68,7 +68,7 @@ func execute(c Case, tag string) vt.Verdict {
 			}
 		}
 	}
-	f := obs.Read(file, obs.Options{})
+	f := obs.Read(file, obs.Options{SelSeeds: []uint64{11, 22, 33, 44}})
 	ps := hist.Compare(ex.M, f, hist.Opts{})
 	for _, p := range ps {
 		if p.Kind == "attr-value-unsigned" {
